@@ -476,6 +476,14 @@ func scenariosFor(tier string) []vrt.Scenario {
 		s.Delay = true
 		out = append(out, s)
 	}
+	plain := func(bound int, delay bool, c cfg) {
+		s := scenario(c).WithPlainPoints(bound)
+		if delay {
+			s.Delay = true
+			s.Name += "/policy=delay"
+		}
+		out = append(out, s)
+	}
 	q := func(ns ...int) []tick {
 		var t []tick
 		for _, n := range ns {
@@ -531,7 +539,11 @@ func scenariosFor(tier string) []vrt.Scenario {
 			add(1000, cfg{kind: "trigger", workers: 1, ticks: q(1), gate: "none", stop: "cancel-race"})
 			add(1000, cfg{kind: "trigger", workers: 1, ticks: q(2, 1), gate: "none", stop: "limit", limit: 1})
 		}
+		plain(1, true, cfg{kind: "trigger", workers: 2, ticks: q(2, 1), gate: "none", stop: "cancel-q"})
+		plain(1, true, cfg{kind: "trigger", workers: 2, ticks: q(3), gate: "none", stop: "limit", limit: 2})
 	case "C03":
+		plain(1, true, cfg{kind: "trigger", workers: 2, limit: 2, ticks: q(3), gate: "none", stop: "limit"})
+		plain(1, true, cfg{kind: "continuous", workers: 2, limit: 2, gate: "none"})
 		// one worker: b=2 (thorough 3); two workers: b=1 (thorough 2); three
 		// workers: delay-bounded d=2 (thorough 3) — with five threads the free
 		// switches at blocking points alone do not complete.
@@ -571,6 +583,8 @@ func scenariosFor(tier string) []vrt.Scenario {
 			add(3, cfg{kind: "continuous", workers: 2, limit: 2, gate: "none"})
 		}
 	case "C04":
+		plain(1, true, cfg{kind: "trigger", workers: 2, ticks: q(2), gate: "barrier", stop: "cancel-q"})
+		plain(1, true, cfg{kind: "continuous", workers: 2, gate: "yield", bodyDur: time.Millisecond, runFor: 2 * time.Millisecond})
 		for _, wk := range []int{1, 2, 3} {
 			adder := func(c cfg) {
 				switch wk {
